@@ -350,3 +350,5 @@ META = {
     'not_decided': 'the space of interleavings itself; only the points where the main loop reads thread-written state are enumerated',
     'technique': 'control-dependence rule + who-may-write/who-may-read (call-graph effect sets) + statement ordering on the quit branches',
 }
+
+META['explanation'] += ' ' + 'Round 13: the one-shot OMEN marker is removed on every path that finished the restored level.'
